@@ -467,7 +467,7 @@ func runC08G[K comparable, V any](c CacheCase, o *vk.Obs, kk keyKit[K], vt valKi
 	}
 	ops = append(ops, COp{Kind: "clear"})
 	for i, op := range ops {
-		o.Step() // interleaved execution (vk.Interleave) switches to the other case here
+		o.Step()                    // interleaved execution (vk.Interleave) switches to the other case here
 		op.K = op.K % (c.Limit + 4) // key space scales with the limit so that evictions happen
 		if op.Kind == "putNew" {    // a key that is not present (if any): forces an insertion
 			for j := 0; j < c.Limit+4; j++ {
@@ -653,5 +653,38 @@ func runC08G[K comparable, V any](c CacheCase, o *vk.Obs, kk keyKit[K], vt valKi
 		o.Class("known_hit_F2")
 		o.Known("F2")
 	}
+	return ""
+}
+
+// LongRunCase: one cache of limit 2 (unit sizes): Put(1), Put(2), then Gets
+// successful Get(1) calls, then Put(3), which must evict key 2 (key 1 is the
+// most recently used however long that run of Gets was).  With Gets beyond
+// 2^31 / 2^32 this crosses the range of a 32-bit access clock.
+type LongRunCase struct {
+	Gets uint64 `json:"gets"`
+}
+
+func runLongRun(c LongRunCase, o *vk.Obs) string {
+	var evicted []int
+	cc := cache.New(2, cache.LRU[int, int]().OnEvict(func(k, _ int) { evicted = append(evicted, k) }))
+	cc.Put(1, 10)
+	cc.Put(2, 20)
+	for i := uint64(0); i < c.Gets; i++ {
+		if i&0xffffff == 0 {
+			o.Step()
+		}
+		if v, ok := cc.Get(1); !ok || v != 10 {
+			return fmt.Sprintf("Get(1) #%d = (%d, %v), want (10, true)", i+1, v, ok)
+		}
+	}
+	cc.Put(3, 30)
+	if len(evicted) != 1 || evicted[0] != 2 || !cc.Has(1) || cc.Has(2) || !cc.Has(3) {
+		return fmt.Sprintf("limit 2: Put(1), Put(2), %d x Get(1), Put(3): evicted %v, Has(1)=%v Has(2)=%v Has(3)=%v; want key 2 evicted (key 1 was used last)", c.Gets, evicted, cc.Has(1), cc.Has(2), cc.Has(3))
+	}
+	if c.Gets > 1<<31 {
+		o.NonTrivial()
+	}
+	o.ClassIf(c.Gets > 1<<31, "more_than_2^31_accesses_on_one_cache")
+	o.ClassIf(c.Gets > 1<<32, "more_than_2^32_accesses_on_one_cache")
 	return ""
 }
